@@ -1722,6 +1722,10 @@ def snap_running(R, idx):
         return None, None, api, ex
 
 
+class _RunFault(Exception):
+    pass
+
+
 def observe_running(col, prog, R, where, mgr, idx, snap):
     """C02 check from a probe call (running frames); `snap` was taken by snap_running() from
     a small frame below the probe."""
@@ -1773,6 +1777,34 @@ def observe_running(col, prog, R, where, mgr, idx, snap):
     # low-level entry point on the running program frame
     fr = st.frames[main_i]
     nxt = st.frames[main_i + 1].pyframe if main_i + 1 < len(st.frames) else None
+    if idx % 3 == 1:
+        # history: first a CONTAINED failure of the detailed analysis at this very (code, f_lasti)
+        # (one helper raises once: a warning, no exception), then the same call again, which must be
+        # exact as if the failure had never happened (checked below)
+        hname = ("analyze_with_blocks", "currently_exiting_context", "inspect_frame")[(idx // 3) % 3]
+        horig = getattr(ll, hname, None)
+        if horig is not None:
+            fired = []
+
+            def _boom(*a, **kw):
+                if fired:           # one fault: the fallback path may use the same helper legitimately
+                    return horig(*a, **kw)
+                fired.append(1)
+                raise _RunFault("injected into %s" % hname)
+            col.count("running_fault_then_recheck")
+            col.evaluations += 1
+            try:
+                setattr(ll, hname, _boom)
+                with warnings.catch_warnings(record=True) as wl:
+                    warnings.simplefilter("always")
+                    with contextlib.redirect_stderr(io.StringIO()):
+                        ll.contexts_active_in_frame(fr.pyframe, None, nxt)
+                if not any(issubclass(w.category, ll.InspectionWarning) for w in wl):
+                    col.violation("running: fault in %s produced no InspectionWarning" % hname, R, prog, **info)
+            except BaseException as ex:
+                col.violation("running: fault in %s escaped contexts_active_in_frame: %r" % (hname, ex), R, prog, **info)
+            finally:
+                setattr(ll, hname, horig)
     try:
         cs = ll.contexts_active_in_frame(fr.pyframe, None, nxt)
     except BaseException as ex:
